@@ -55,6 +55,8 @@ func init() {
 		"vSameBacking": inSameBacking,
 		"vCountTrue":   inCountTrue,
 		"vPad":         inPad,
+		"vConcretizeAlloc": func(it *Interp, fr *frame, cc *ssa.CallCommon, a []Value) Value { it.ConcretizeAlloc = true; return nil },
+		"vAllocCheck":  func(it *Interp, fr *frame, cc *ssa.CallCommon, a []Value) Value { return nil },
 		"vIdx":         inIdx,
 	}
 }
